@@ -177,6 +177,7 @@ def LogRec.setDetail (r : LogRec) (api : Bool) (d : Detail) : LogRec :=
 inductive Creds where
   | none
   | tuple (userRepr pwRepr : Str)
+  | tupleSub (userRepr pwRepr : Str)   -- an instance of a tuple subclass (namedtuple …): `isinstance(creds, tuple)` holds
   | list (userRepr pwRepr : Str)       -- outside the documented type, accepted by the code
   deriving Repr, DecidableEq, Inhabited
 
@@ -193,6 +194,7 @@ structure ConnInfo where
 def credsRepr : Creds → Str
   | .none => "None".toList
   | .tuple u _ => "(".toList ++ u ++ ", ...)".toList
+  | .tupleSub u _ => "(".toList ++ u ++ ", ...)".toList
   | .list u p => "[".toList ++ u ++ ", ".toList ++ p ++ "]".toList
 
 def connStr (ci : ConnInfo) : Str := ci.strPre ++ credsRepr ci.creds ++ ci.strPost
@@ -690,6 +692,7 @@ def hdrLookup (name : Str) : List Hdr → Option Str
 def authHeader (b64 : Str → Str) : Creds → List Hdr
   | .none => []
   | .tuple u p => [⟨authName, "Basic ".toList ++ b64 (u ++ ":".toList ++ p), []⟩]
+  | .tupleSub u p => [⟨authName, "Basic ".toList ++ b64 (u ++ ":".toList ++ p), []⟩]
   | .list u p => [⟨authName, "Basic ".toList ++ b64 (u ++ ":".toList ++ p), []⟩]
 
 structure WbemResult where
